@@ -22,7 +22,8 @@ RULE = ("2-D / 3-D cubes over cat/cat_date/mr (+ text/binned/datetime), weighted
         "subtotal and difference insertions on categorical dimensions; besides random surveys (0-40 respondents, "
         "uneven missingness, restricted supports => empty margins) the generator forces degenerate tables: single "
         "row / single column, exactly proportional rows (rank 1), all-selected MR items (table base == row base), "
-        "2x2 CAT x CAT; non-trivial = non-defective table with >= 2 distinct finite non-zero z; "
+        "2x2 CAT x CAT, rank-2 tables with an inserted rows / columns / intersection block whose z are all exactly 0 "
+        "(p must be 1); non-trivial = non-defective table with >= 2 distinct finite non-zero z; "
         "distinct = (kinds, insertion shapes, raw weighted counts)")
 ASSUMPTIONS = ["numpy.linalg.matrix_rank(counts) < 2  <=>  all 2x2 minors vanish, on the generated dyadic data "
                "(SVD tolerance not modelled; compared per case)",
@@ -51,8 +52,65 @@ def _product_survey(rng, vars_, weighted):
     return survey
 
 
+ZBOTH = [(1, 2, 1, 3, 2), (2, 1, 1, 3, 2), (1, 3, 1, 2, 1), (1, 3, 2, 1, 1), (2, 4, 3, 1, 1), (1, 2, 3, 1, 2)]
+
+
+def _zero_block_case(rng):
+    """a rank-2 CAT x CAT table one of whose INSERTED blocks has z == 0 exactly in every cell:
+    the subtotal of rows S is exactly proportional to the column margin (rows r1 = alpha*m + delta,
+    r2 = beta*m - delta, remaining rows multiples of m), transposed for a column subtotal, and a
+    symmetric 3x3 table [[a,b,e],[b,a,e],[c,c,f]] with (a+b) f = 2 e c for rows + columns +
+    intersection.  p must be 2(1 - Phi(0)) = 1 there."""
+    which = rng.choice(["rows", "cols", "both"])
+    if which == "both":
+        a, b, e, c, f = rng.choice(ZBOTH)
+        table = [[a, b, e], [b, a, e], [c, c, f]]
+    else:
+        n_other = rng.choice([2, 2, 3])
+        m = [rng.randint(1, 3) for _ in range(n_other)]
+        delta = [1, -1] + [0] * (n_other - 2)
+        rng.shuffle(delta)
+        al, be = rng.randint(1, 2), rng.randint(1, 2)
+        table = [[al * x + dl for x, dl in zip(m, delta)], [be * x - dl for x, dl in zip(m, delta)]]
+        for _ in range(rng.choice([0, 1, 1, 2])):
+            table.append([rng.randint(0, 2) * x for x in m])
+        if which == "cols":
+            table = [list(r) for r in zip(*table)]
+    nr, nc = len(table), len(table[0])
+    kinds = [rng.choice(["cat", "cat_date"]), rng.choice(["cat", "cat_date"])]
+    vr = su.gen_dim_var(rng, kinds[0], "v0", n_valid=nr, n_missing=rng.choice([0, 1]), missing_first=rng.random() < 0.4)
+    vc = su.gen_dim_var(rng, kinds[1], "v1", n_valid=nc, n_missing=rng.choice([0, 1]), missing_first=rng.random() < 0.4)
+    weighted = rng.random() < 0.5
+    scale = rng.choice([Fraction(1, 2), Fraction(1), Fraction(3, 2), Fraction(2)]) if weighted else Fraction(1)
+    survey = []
+    for i, pi in enumerate(vr.valid_cat_pos):
+        for jx, pj in enumerate(vc.valid_cat_pos):
+            if weighted:
+                if table[i][jx]:
+                    survey.append((table[i][jx] * scale, [[pi], [pj]]))
+            else:
+                survey.extend([(Fraction(1), [[pi], [pj]])] * table[i][jx])
+    # respondents with a missing answer do not enter the table
+    for v, other, first in ((vr, vc, True), (vc, vr, False)):
+        for mp in [k for k, cc in enumerate(v.cats) if cc["missing"]]:
+            o = rng.randrange(len(other.cats))
+            survey.append((scale, [[mp], [o]] if first else [[o], [mp]]))
+    rng.shuffle(survey)
+
+    def ins(v, k):
+        ids = [v.cats[p]["id"] for p in v.valid_cat_pos[:2]]
+        return [{"function": "subtotal", "args": ids, "anchor": rng.choice(["top", "bottom", ids[0]]),
+                 "name": "zero%d" % k}]
+    row_ins = ins(vr, 0) if which in ("rows", "both") else []
+    col_ins = ins(vc, 1) if which in ("cols", "both") else []
+    return {"vars": [vr.to_json(), vc.to_json()], "survey": gen.survey_to_json(survey), "weighted": weighted,
+            "row_ins": row_ins, "col_ins": col_ins, "mode": "zeroblock-" + which}
+
+
 def gen_case(rng):
-    mode = rng.choice(["random"] * 6 + ["single", "rank1", "allsel", "2x2", "2x2", "tiny"])
+    mode = rng.choice(["random"] * 6 + ["single", "rank1", "allsel", "2x2", "2x2", "tiny", "zeroblock", "zeroblock"])
+    if mode == "zeroblock":
+        return _zero_block_case(rng)
     nd = rng.choice([2, 2, 2, 3])
     if mode in ("rank1", "2x2"):
         nd = 2
@@ -233,6 +291,15 @@ def evaluate(case, louts, ctx):
                         break
                 if done:
                     break
+        # distribution: inserted blocks whose z-scores are all exactly 0 (p must be 1 there)
+        zs0 = common.call_impl(lambda: sl.zscores)
+        if isinstance(zs0, list):
+            for nm, sel in (("rows", lambda R, C: R["inserted"] and not C["inserted"]),
+                            ("cols", lambda R, C: not R["inserted"] and C["inserted"]),
+                            ("intersections", lambda R, C: R["inserted"] and C["inserted"])):
+                blk = [zs0[ii][jj] for ii, ri in enumerate(ro) for jj, cj in enumerate(co) if sel(rows[ri], cols[cj])]
+                if blk and all(x == 0.0 for x in blk):
+                    ctx.count("all_zero_inserted_%s_block" % nm)
         # residual_test_stats = [pvals, zscores]
         rts = common.call_impl(lambda: sl.residual_test_stats)
         pv = common.call_impl(lambda: sl.pvals)
